@@ -15,6 +15,7 @@ import (
 
 // HistEv is one completed (or, on deadlock, pending) API call of a concurrent run.
 type HistEv struct {
+	STask int // scheduler task id
 	Task  int
 	Op    Op
 	Inv   int64
@@ -46,6 +47,28 @@ type concResult struct {
 	closeInv int64
 	closeRet int64
 	stamps   []int64 // stamp of every journal entry
+	retained []retained
+	preload  int // number of ops main executed before spawning clients
+}
+
+func (cr *concResult) retain(b []byte, what string) {
+	if len(b) == 0 || len(cr.retained) >= 200 {
+		return
+	}
+	cr.retained = append(cr.retained, retained{live: b, snap: append([]byte(nil), b...), what: what})
+}
+
+// checkRetained verifies the slices handed out during the run (C14).
+func (cr *concResult) checkRetained(when string) *Violation {
+	for _, r := range cr.retained {
+		if !bytes.Equal(r.live, r.snap) {
+			return violf("returned-slice-changed", "slice returned by %s changed %s: was %s now %s", r.what, when, showVal(r.snap), showVal(r.live))
+		}
+		if cr.env.FS.Overlaps(r.live) {
+			return violf("returned-slice-aliases-file", "slice returned by %s points into a file buffer (%s)", r.what, when)
+		}
+	}
+	return nil
 }
 
 // runBubble runs f inside a synctest bubble and returns synctest's deadlock/leak panic message.
@@ -85,7 +108,7 @@ func concExec(t *testing.T, p *Plan, co concOpts) *concResult {
 	}
 	doOp := func(task int, op Op, cnt *int) {
 		db := e.DB
-		ev := &HistEv{Task: task, Op: op}
+		ev := &HistEv{Task: task, Op: op, STask: sim.Current().ID}
 		closeInvokedBefore := cr.closeInv != 0
 		ev.Inv = sim.Stamp()
 		var err error
@@ -103,7 +126,8 @@ func concExec(t *testing.T, p *Plan, co concOpts) *concResult {
 		case "get":
 			var v []byte
 			v, err = db.Get(keys[op.Key])
-			ev.Val, ev.IsNil = v, v == nil
+			ev.Val, ev.IsNil = append([]byte(nil), v...), v == nil
+			cr.retain(v, "Get")
 		case "geta":
 			buf := make([]byte, op.Size, op.Size+4)
 			for i := range buf {
@@ -111,7 +135,8 @@ func concExec(t *testing.T, p *Plan, co concOpts) *concResult {
 			}
 			var v []byte
 			v, err = db.GetAppend(keys[op.Key], buf)
-			ev.Val, ev.IsNil = v, v == nil
+			ev.Val, ev.IsNil = append([]byte(nil), v...), v == nil
+			cr.retain(v, "GetAppend")
 		case "has":
 			ev.Bool, err = db.Has(keys[op.Key])
 		case "count":
@@ -153,7 +178,11 @@ func concExec(t *testing.T, p *Plan, co concOpts) *concResult {
 					err = nerr
 					break
 				}
-				ev.Pairs = append(ev.Pairs, [2][]byte{k, v})
+				ev.Pairs = append(ev.Pairs, [2][]byte{append([]byte(nil), k...), append([]byte(nil), v...)})
+				if n < 3 {
+					cr.retain(k, "Next(key)")
+					cr.retain(v, "Next(value)")
+				}
 				if n > 5000 {
 					err = fmt.Errorf("scan does not terminate")
 					break
@@ -193,6 +222,10 @@ func concExec(t *testing.T, p *Plan, co concOpts) *concResult {
 				fail(violf("open-failed", "Open: %v", err))
 				return
 			}
+			for _, op := range p.Epochs0() {
+				doOp(0, op, nil)
+				cr.preload++
+			}
 			var clients []*sched.Task
 			for ti := range p.Tasks {
 				ti := ti
@@ -222,6 +255,11 @@ func concExec(t *testing.T, p *Plan, co concOpts) *concResult {
 	_ = mainTask
 	if sim == nil {
 		panic("conc: the bubble did not start: " + cr.leak)
+	}
+	if cr.v == nil {
+		if v := cr.checkRetained("by the end of the run (after Close)"); v != nil {
+			cr.v = v
+		}
 	}
 	if sim != nil {
 		for _, tk := range sim.Tasks() {
